@@ -488,5 +488,6 @@ Proof.
   pose proof (call_returns_plan md bs n (fst tf) (te_e te) b) as H.
   destruct (attempt md true bs n (fst tf) (te_e te)) as [f1 g]. cbn [snd] in H.
   destruct g as [w s| |k|w|s l ps ok]; cbn [snd]; try exact H.
-  destruct (te_torn te && last_is_meta ps && Nat.eqb (length ps) (e_k (te_e te) - 4)); cbn [snd call_returns]; [discriminate|exact H].
+  destruct (te_torn te && last_is_meta ps && Nat.eqb (length ps) (e_k (te_e te) - 4)); cbn [snd call_returns]; [discriminate|].
+  destruct (te_torn te && ok && Nat.eqb (S (length ps)) (e_k (te_e te) - 4)); cbn [snd call_returns]; [discriminate|exact H].
 Qed.
